@@ -430,9 +430,37 @@ def agree_ref(ctx, fi, ref_src, title, what=('return', 'heap', 'substores'), rul
             g = e.cond()
             n_ = completes.get(side.get(id(e)))
             return T.mk_and([g, n_]) if n_ is not None and n_.key != T.TRUE.key else g
-        _match_groups(ctx, rule, title, fi, 'attribute update', ea_, eb_,
-                      lambda e: [('object', e.data['base']), ('attribute', lift(e.data['name'])), ('value', e.data['value']),
-                                 ('guard', guard_of_store(e))], txt)
+        def keep_split(e):
+            """`o.a = V if c else o.a` (the attribute's own current value in one arm: a helper that returns either a new value or
+            the old one) is the conditional store `if c: o.a = V`"""
+            v = e.data['value']
+            va = v.single_atom()
+            if va is None or va.kind != 'ite' or e.data.get('aug') is not None:
+                return v, None
+
+            def current(t):
+                ta = t.single_atom()
+                if ta is None:
+                    return False
+                if ta.kind == 'attr':
+                    return ta.args[1] == e.data['name'] and ta.args[0].key == e.data['base'].key
+                if ta.kind in ('loopvar', 'after') and isinstance(ta.args[0], str):
+                    return ta.args[0] == f"{e.data['base'].key}.{e.data['name']}"
+                return False
+            c, a, b = va.args
+            if current(b) and not current(a):
+                return a, c
+            if current(a) and not current(b):
+                return b, T.mk_not(c)
+            return v, None
+
+        def store_comps(e):
+            v, extra = keep_split(e)
+            g = guard_of_store(e)
+            if extra is not None:
+                g = T.mk_and([g, extra])
+            return [('object', e.data['base']), ('attribute', lift(e.data['name'])), ('value', v), ('guard', g)]
+        _match_groups(ctx, rule, title, fi, 'attribute update', ea_, eb_, store_comps, txt)
     if 'loopstores' in what:
         def sell(II, o):
             return [e for e in II.events if e.kind == 'store' and e.data.get('target') == 'name' and e.loops
